@@ -54,7 +54,7 @@ def run(ctx):
     ctx.floor('C15.retrievals_with_algebra_failure_inside', 30)
     slot(4)
     from .. import w_auto
-    w_auto.run(ctx, ('C15',), {'quick': 2500, 'thorough': 60000}[ctx.tier], label='forwarding programs')
+    w_auto.run(ctx, ('C15',), {'quick': 4000, 'thorough': 300000}[ctx.tier], label='forwarding programs')
     ctx.deadline = saved
 
 
